@@ -22,6 +22,9 @@ import (
 // append the store is compared with the reference RFC 6962 tree.
 
 type c09Store struct {
+	// zeroCopy: for a run of consecutive indexes the reader hands out a sub-slice of its own array
+	// instead of a copy (legal for a HashReader; a caller must not write into what it is given)
+	zeroCopy bool
 	hashes  []tlog.Hash
 	fault   int // 0 none, 1 error, 2 short, 3 long
 	fired   bool
@@ -31,6 +34,16 @@ type c09Store struct {
 
 func (s *c09Store) ReadHashes(idx []int64) ([]tlog.Hash, error) {
 	s.reads++
+	if s.zeroCopy && s.virtual == nil && s.fault == 0 && len(idx) > 0 {
+		consecutive := idx[0] >= 0 && idx[len(idx)-1] < int64(len(s.hashes))
+		for i := 1; i < len(idx); i++ {
+			consecutive = consecutive && idx[i] == idx[i-1]+1
+		}
+		if consecutive {
+			a, b := idx[0], idx[len(idx)-1]+1
+			return s.hashes[a:b:b], nil
+		}
+	}
 	out := make([]tlog.Hash, len(idx))
 	for i, x := range idx {
 		if s.virtual != nil {
@@ -104,7 +117,7 @@ func c09Explore(src *choice.Src) *core.Result {
 		maxN = 20
 	}
 	n := src.Range(1, maxN)
-	st := &c09Store{}
+	st := &c09Store{zeroCopy: src.Bool(1, 3)}
 	tr := ref.NewTree()
 	faultEvery := src.Weighted(3, 1, 1)
 	res.Logf("C09 history of %d appends", n)
@@ -183,6 +196,17 @@ func c09Explore(src *choice.Src) *core.Result {
 		}
 		if res.Violation != nil {
 			break
+		}
+	}
+	// reads must not have side effects on the store: every stored hash is still the reference hash
+	if res.Violation == nil {
+		for p := int64(0); p < int64(len(st.hashes)); p++ {
+			if ref.Hash(st.hashes[p]) != tr.StoredHash(p) {
+				l, o := ref.StoredCoord(p)
+				res.Fail("C09", "stored-hash-is-subtree-hash", "a stored hash changed after it was written (a read modified the store)",
+					"after %d records: position %d (level %d, offset %d) no longer holds the hash that was stored there; the store hands out sub-slices of its own array (zero copy: %v)", len(texts), p, l, o, st.zeroCopy)
+				break
+			}
 		}
 	}
 	res.Steps = st.reads
